@@ -109,7 +109,7 @@ impl Check for NftVotes {
         let mut touched: std::vec::Vec<u32> = vec![];
         for (i, s) in steps.iter().enumerate() {
             let (kind, got) = match s {
-                Step::Advance { n } => { m.record(cfg.actors); w.advance(*n); st.ledgers += *n as u64; ("advance", true) }
+                Step::Advance { n } => { m.record(cfg.actors); w.advance(*n); st.ledgers += *n as u64; st.hit("clock.advance"); if *n > 100_000 { st.hit("clock.jump"); } ("advance", true) }
                 Step::Mint { to } => { w.set_auth(&[]); ("mint", c.try_mint(&a(*to)).is_ok()) }
                 Step::Transfer { from, to, id: t } => { w.set_auth(&[(*from, Inv::new(&id, "transfer", (a(*from), a(*to), *t).into_val(e)))]); ("transfer", c.try_transfer(&a(*from), &a(*to), t).is_ok()) }
                 Step::Burn { from, id: t } => { w.set_auth(&[(*from, Inv::new(&id, "burn", (a(*from), *t).into_val(e)))]); ("burn", c.try_burn(&a(*from), t).is_ok()) }
